@@ -537,6 +537,45 @@ def leaderAssign (members : List (Str × Bytes)) (load : List Str → Dict Str (
   | .error (.need topics) => generateAssignmentsB members (load topics)
   | r => r
 
+/-! ## `KafkaClient._load_topic_partitions` (what the leader's glue awaits)
+
+A metadata reply, as far as this method looks at it: per topic the error code and the partition
+ids.  The method sends the request again (after a delay) until ONE reply answers every requested
+topic without error and with at least one partition; the snapshot is built from that reply alone
+(`_merge_topic_metadata` resets what was cached for every topic of the reply). -/
+
+abbrev MetaReply := Dict Str (Int × List Int)
+
+/-- `sorted` on partition ids -/
+def intLe (a b : Int) : Bool := decide (a ≤ b)
+
+/-- The `for topic in topics` loop after one reply: `none` when `missing` is non-empty (a requested
+    topic is not in the response, has an error code, or has no partitions). -/
+def snapshotOf (r : MetaReply) : List Str → Option (Dict Str (List Int))
+  | [] => some []
+  | t :: ts =>
+    match dget t r with
+    | none => none                                   -- "not in response" (repo commit 9b87dea)
+    | some (err, ps) =>
+      if err ≠ 0 then none
+      else if ps = [] then none
+      else
+        match snapshotOf r ts with
+        | none => none
+        | some rest => some (dset t (sortBy intLe (dedup ps)) rest)
+
+/-- The `while True` loop over the successive replies; `none`: still retrying when they run out.
+    Also returns how many requests were sent. -/
+def loadTopicPartitions (asked : List Str) : List MetaReply → Option (Dict Str (List Int) × Nat)
+  | [] => none
+  | r :: rs =>
+    match snapshotOf r asked with
+    | some snap => some (snap, 1)
+    | none =>
+      match loadTopicPartitions asked rs with
+      | none => none
+      | some (snap, n) => some (snap, n + 1)
+
 /-- What each listed member is handed before encoding (`assignments.get(id, {})` per member). -/
 def perMember (asg : Asg) (members : List Member) : List (Str × Dict Str (List Int)) :=
   members.map (fun m => (m.1, assignmentOf asg m.1))
